@@ -1,22 +1,20 @@
-"""Registry of claimed checks; bin/mkmanifest turns it into MANIFEST.json."""
+"""Registry of claimed checks; bin/mkmanifest turns it into MANIFEST.json.
+One JSON file per claimed property in checks/registry.d/."""
+import glob
+import json
+import os
 
-HOOK_COMMITS = [
-    "40f3f45 verif hook H1: disable NTP lookup under build tag verif",
-    "6b819e9 verif hook H2: store write observation point",
-    "2fcbc28 verif hook H4: in-package exports for chain boot, group removal and block execution",
-]
+HERE = os.path.dirname(os.path.abspath(__file__))
 
-CHECKS = {
-    "C19": dict(
-        level="model_checking",
-        text="GroupChain.tla (store writes of save/remove, restart, crash) model-checked exhaustively by TLC; "
-             "TLC-generated call histories replayed on the real core.groupChain and every recorded step judged by "
-             "GroupChainTrace.tla (step relation + list/index/by-id invariants on the API's answers).",
-        note="consensus CheckGroup stubbed; restart = initGroupChain re-run in-process; bounds Ids<=5, MaxCount=6",
-        technique="TLA+ spec + TLC exhaustive; TLC-generated histories replayed on real code; TLC trace validation",
-        design_ref="5 (C19)",
-        engine="groupchain",
-    ),
-}
+HOOK_COMMITS = [l.strip() for l in open(os.path.join(HERE, "hook_commits.txt")) if l.strip()]
+
+CHECKS = {}
+for p in sorted(glob.glob(os.path.join(HERE, "registry.d", "C*.json"))):
+    CHECKS[os.path.basename(p)[:-5]] = json.load(open(p))
+
+NA = {}
+_na = os.path.join(HERE, "not_applicable.json")
+if os.path.exists(_na):
+    NA = json.load(open(_na))
 
 NOT_YET = "check not built yet in this round (see DESIGN.md section 5 for the plan)"
